@@ -13,6 +13,8 @@ from . import core, harness
 
 VERIF = os.path.dirname(os.path.dirname(os.path.abspath(__file__)))
 KNOWN = os.path.join(VERIF, 'known_findings.json')
+# evidence and replay files go to /verif; a run against a scratch tree (VERIF_REPO, seeded changes) writes them elsewhere
+OUT = (os.environ.get('VERIF_REPO') and os.environ.get('VERIF_OUT')) or VERIF
 
 _INST = []
 _OPTS = {}
@@ -33,7 +35,7 @@ def _work(i):
             max_paths=inst.get('max_paths', 256), max_depth=inst.get('max_depth', 64),
             timeout_ms=inst.get('timeout_ms', _OPTS.get('timeout_ms')),
             rel_tol=inst.get('rel_tol', 1e-9),
-            replay_dir=os.path.join(VERIF, 'replays', _OPTS['prop']), prop=_OPTS['prop'],
+            replay_dir=os.path.join(OUT, 'replays', _OPTS['prop']), prop=_OPTS['prop'],
             check_vacuity=inst.get('check_vacuity', True))
         rec['queries_total'] = rec['unsat'] + rec['sat'] + rec['unknown']
         return i, rec
@@ -165,8 +167,8 @@ def run_check(prop, instances, tier, explanation, bounds, outside, level_assumpt
         'wall_s': round(wall, 2),
         'violations': len(viol),
     }
-    os.makedirs(os.path.join(VERIF, 'evidence'), exist_ok=True)
-    with open(os.path.join(VERIF, 'evidence', prop + '.json'), 'w') as f:
+    os.makedirs(os.path.join(OUT, 'evidence'), exist_ok=True)
+    with open(os.path.join(OUT, 'evidence', prop + '.json'), 'w') as f:
         json.dump(ev, f, indent=1, default=str)
     # ------------------------------------------------------------ interface
     seenk = set()
